@@ -46,6 +46,7 @@ package objecttree
 //@   requires s != nil && s.store != nil && s.changesColl != nil && s.headStorage != nil && s.arena != nil && s.addSeq != nil
 //@   requires !txOpened && !txCommitted && !txRolledBack && !txCommitCalled
 //@   ensures [ok_implies_committed]    result == nil ==> txCommitted
+//@   ensures [ok_implies_heads_updated] result == nil ==> txHeadUpdated
 //@   ensures [err_implies_not_committed] result != nil ==> !txCommitted
 //@   ensures [err_implies_rolled_back] result != nil && txOpened ==> txRolledBack || txCommitCalled
 //@   ensures [commit_xor_rollback]     !(txCommitCalled && txRolledBack)
@@ -60,6 +61,7 @@ package objecttree
 //@   requires s != nil && s.store != nil && s.changesColl != nil && s.headStorage != nil && s.arena != nil && s.addSeq != nil
 //@   requires !txOpened && !txCommitted && !txRolledBack && !txCommitCalled
 //@   ensures [ok_implies_committed]    result == nil ==> txCommitted
+//@   ensures [ok_implies_heads_updated] result == nil ==> txHeadUpdated
 //@   ensures [err_implies_not_committed] result != nil ==> !txCommitted
 //@   ensures [err_implies_rolled_back] result != nil && txOpened ==> txRolledBack || txCommitCalled
 //@   ensures [commit_xor_rollback]     !(txCommitCalled && txRolledBack)
@@ -79,9 +81,10 @@ package objecttree
 
 // CreateStorageTx writes with the context it is given: that must be the open transaction's.
 //@ func CreateStorageTx
+//@   modifies kinds none
 //@   requires root != nil && headStorage != nil && store != nil
 //@   requires [ctx_is_tx] ctx == txCtx(curTx)
-//@   ensures result1 == nil ==> result0 != nil
+//@   ensures result1 == nil ==> result0 != nil && typeis(result0, "*objecttree.storage") && ifaceptr(result0) != nil
 
 //@ func CreateStorage
 //@   requires root != nil && headStorage != nil && store != nil
@@ -131,3 +134,18 @@ package objecttree
 //@   requires !memAhead && !rebuilt
 //@   ensures [err_keeps_tree_or_rebuilds] err != nil ==> rebuilt || (ot.tree == old(ot.tree) && !memAhead)
 //@   ensures [ok_not_rebuilt]             err == nil ==> !rebuilt
+
+// Deferred creation: storage creation and the first write are one transaction; if it does not
+// commit, the deferred storage is back in its "not created" state.
+//@ func (*storageDeferredCreation).createStorage
+//@   requires s != nil && s.headStorage != nil && s.store != nil
+//@   requires [ctx_is_tx] ctx == txCtx(curTx)
+//@   ensures [created_iff_ok] (result == nil ==> s.storage != nil) && (result != nil ==> s.storage == old(s.storage))
+//@ func (*storageDeferredCreation).createStorageAndDoInTx
+//@   callback proc modifies nothing
+//@   requires s != nil && s.headStorage != nil && s.store != nil && s.storage == nil && proc != nil
+//@   requires !txOpened && !txCommitted && !txRolledBack && !txCommitCalled
+//@   ensures [ok_implies_committed]      err == nil ==> txCommitted
+//@   ensures [err_implies_not_committed] err != nil ==> !txCommitted
+//@   ensures [err_keeps_uncreated]       err != nil ==> s.storage == nil
+//@   ensures [closed]                    txOpened ==> txCommitCalled || txRolledBack
